@@ -608,3 +608,4 @@ func ruleC23(c *Ctx) {
 	c.Floor("facts", 2)
 	c.Floor("loopshape", 1)
 }
+
